@@ -6,6 +6,26 @@ import os
 VERIF = os.path.dirname(os.path.dirname(os.path.abspath(__file__)))
 
 CLAIMED = {
+    "C08": dict(
+        engine="query", category="model_checking", design_ref="DESIGN.md §7 C08",
+        technique="TLA+ reference semantics QuerySem.tla (pattern bindings, Kleene WHERE, DISTINCT, aggregates, ORDER/SKIP/LIMIT) evaluated by TLC as the oracle for every (graph, abstract query) case; queries rendered to GQL and Cypher and executed on the real engine",
+        text="Tens of thousands of random (graph, core query) cases per run: graphs with self-loops, parallel edges, isolated nodes, missing and heterogeneous properties; 0-2 hop patterns with labels, types, directions; three-valued predicates over node and edge properties; projections, DISTINCT, count/sum/min/max with grouping, ORDER BY + SKIP/LIMIT. TLC computes the expected bag (sequence when ordered) from QuerySem.tla and compares with the rows the engine returned, per language; both languages must agree with the same oracle.",
+        note="Gremlin / GraphQL renderings, variable-length paths, avg/collect, OPTIONAL MATCH are not generated. Errors for unsupported constructs are 'no answer'."),
+    "C09": dict(
+        engine="query", category="model_checking", design_ref="DESIGN.md §7 C09",
+        technique="same QuerySem.tla oracle; each case executed through a hand-built translate/bind/optimize/plan/execute pipeline under no optimizer and all 2^3 rewrite combinations, with statistics never computed / fresh / stale",
+        text="Every optimizer configuration must return exactly the rows QuerySem.tla defines (so an unsound rewrite shared by all configurations is still caught), for every generated query and graph.",
+        note="The plan-level PlanSem extension of the design is not built; results, not plans, are compared."),
+    "C10": dict(
+        engine="query", category="model_checking", design_ref="DESIGN.md §7 C10",
+        technique="same QuerySem.tla oracle over physical configurations: property indexes on any subset of the filtered keys (created before the data, mid-history, dropped), factorized execution on/off, plan cache cold/warm, the same text re-executed after the data changed",
+        text="For every generated query (incl. predicates shaped to hit the index path, the range path and min/max pruning with extra conjuncts, ORs and mixed types) and every physical configuration / history of configurations the rows must equal the oracle's for the graph as it is at that moment.",
+        note="Edge-property indexes and adaptive execution are not varied."),
+    "C11": dict(
+        engine="query", category="model_checking", design_ref="DESIGN.md §7 C11",
+        technique="TLA+ module Metamorphic.tla: partition / count / DISTINCT / window / UNION ALL identities evaluated by TLC on recorded results of related queries (no semantic oracle); graphs of 0, 1, 2047, 2048, 2049 rows for chunk boundaries",
+        text="For base queries x predicates (comparisons, arithmetic, connectives, IN, string operators, missing properties) x skip/limit values (0, 1, n-1, n, n+1, 2047, 2048) in GQL and Cypher, TLC checks that the recorded bags satisfy Q = Q|p + Q|not p + Q|p IS NULL, count = number of rows, DISTINCT = set of Q, window = SubSeq of the ordered result, UNION ALL = concatenation.",
+        note="GQL has no UNION production (known finding, class precision). LimitChunks operator-level model of the design is not built."),
     "C14": dict(
         engine="store", category="model_checking", design_ref="DESIGN.md §7 C14",
         technique="TLA+ specs LpgStore.tla (every accessor defined from one abstract graph) and MC_LpgIndex.tla (incremental label/property index mechanism = definitions, model-checked by TLC); recorded mutator histories of the real LpgStore validated by TLC with all access paths after every call",
@@ -56,6 +76,8 @@ CLAIMED = {
 REASON_PENDING = "not claimed yet in this round: specification and conformance binding for this property are designed (DESIGN.md §7) but not built; no check is registered rather than an unsound one"
 
 ENGINES = [
+    dict(name="query", path="spec/query", serves_properties=["C08", "C09", "C10", "C11"],
+         kind_free_text="TLA+ QuerySem.tla (executable reference semantics) + Check_Query.tla / Metamorphic.tla evaluated by TLC; harness `gv q` / `gv qmeta` generates graphs x queries, renders GQL/Cypher, runs sessions and hand-built pipelines"),
     dict(name="store", path="spec/store", serves_properties=["C13", "C14"],
          kind_free_text="TLA+ RdfStore.tla / MC_RdfIndex.tla / LpgStore.tla / MC_LpgIndex.tla (+Trace_*) checked by TLC; harness `gv rdf`, `gv lpg`"),
     dict(name="conc", path="spec/conc", serves_properties=["C20", "C03"],
